@@ -7,6 +7,7 @@ import (
 	"context"
 	"errors"
 	"fmt"
+	"sort"
 	"strings"
 	"time"
 
@@ -85,8 +86,20 @@ func (st *ccState) canon(r *rxRec) []byte {
 func (st *ccState) checkHandovers(v *vio) {
 	ptrs := map[interface{}]int{}
 	handed := map[string]int{}
+	type hm struct {
+		c *ccCall
+		m *matchRec
+	}
+	var all []hm
 	for _, c := range st.calls {
 		for _, m := range st.handovers(c) {
+			all = append(all, hm{c, m})
+		}
+	}
+	sort.SliceStable(all, func(i, j int) bool { return all[i].m.seq < all[j].m.seq }) // global order of hand-overs
+	for _, h := range all {
+		c, m := h.c, h.m
+		{
 			if m.isNil {
 				v.add("R1-nil", "call %d (xid %x): matcher was handed a nil message at #%d", c.id, c.spec.xid, m.seq)
 				continue
